@@ -50,7 +50,9 @@ GROUPS = {
  'insertall': ('dcmmeta.py: _insert as a whole',
    [('insert_leaves_other_unchanged', 'insert_whole_eq'), ('insert_on_model_extension', 'insert_whole_on_ext'),
     ('insert_treats_keys_independently', 'insert_try_per_key'),
-    ('insert_treats_keys_independently_on_model_extension', 'insert_try_per_key_on_ext')]),
+    ('insert_treats_keys_independently_on_model_extension', 'insert_try_per_key_on_ext'),
+    ('insert_key_step_non_slice_is_model', 'keyStep_non_slice_eq'), ('insert_key_step_slice_is_model', 'keyStep_slice_eq'),
+    ('insert_key_step_sample_is_model', 'keyStep_sample_eq')]),
  'filter': ('dcmstack.py: make_key_regex_filter and its inner function',
    [('key_regex_filter_is_model', 'key_regex_filter_eq')]),
  'orient': ('dcmstack.py: the voxel_order checks of reorder_voxels',
